@@ -525,7 +525,7 @@ def reset_rule(chk, db, fn, k, R, want, paths, succ, full, fview, L, label, wher
                     names.index('clear') > min(i for i, n in enumerate(names) if n in ('push_back', 'emplace', 'emplace_back', 'insert')):
                 why_r.append('elements appended before the destination is cleared')
         # loop bound: the element loop runs exactly `decoded count` times
-        loop_ok = loop_bound(fn, L)
+        loop_ok = loop_bound(fn, L, full, db=db)
         if not loop_ok[0]:
             why_e.append(loop_ok[1])
         app = [it for it in fview if it[0] == 'DEST' and it[1] in ('push_back', 'emplace', 'emplace_back', 'insert')]
@@ -550,7 +550,7 @@ def reset_rule(chk, db, fn, k, R, want, paths, succ, full, fview, L, label, wher
             if not (len(raws) == 1 and raw_count(raws[0], Poly.const(k.n)) == Poly.const(k.n) and raw_from_start(raws[0])):
                 why_e.append('raw read does not cover all %d elements from the first: %s' % (k.n, [repr(it[2] - it[1]) for it in raws]))
         else:
-            lb = loop_bound(fn, Poly.const(k.n))
+            lb = loop_bound(fn, Poly.const(k.n), full, whole=Poly.const(k.n), db=db)
             if not lb[0]:
                 why_e.append(lb[1])
             reads = [it for it in fview if it[0] == 'ENC' and it[5].in_loop]
@@ -585,7 +585,7 @@ def reset_rule(chk, db, fn, k, R, want, paths, succ, full, fview, L, label, wher
         else:
             if not (len(stores) == 1 and symx.as_poly(stores[0][2]) == L):
                 why_r.append('size member set to %s, expected the decoded count' % [repr(it[2]) for it in stores])
-            lb = loop_bound(fn, L)
+            lb = loop_bound(fn, L, full, db=db)
             if not lb[0]:
                 why_e.append(lb[1])
             for p in succ:
@@ -615,35 +615,133 @@ def raw_count(raw, whole):
     return raw[2] - raw[1]
 
 
-def loop_bound(fn, count):
-    """the (single) counted loop of the function iterates var = 0 .. count-1"""
-    loops = [y for y in ir.walk(fn['body']) if y.get('k') in ('for', 'while', 'rfor', 'do')]
+def _norm_op(e):
+    """overloaded iterator operators (operator!=, operator++ ...) viewed as the built-in operator they spell"""
+    if e.get('k') == 'call' and e.get('ck') == 'op' and not (e.get('callee') or {}).get('nop'):
+        a = e.get('args') or []
+        if e.get('op') in ('!=', '<', '>', '+=', '=') and len(a) == 2:
+            return {'k': 'bin', 'op': e['op'], 'l': a[0], 'r': a[1], 't': e.get('t')}
+        if e.get('op') in ('++', '--') and 1 <= len(a) <= 2:
+            return {'k': 'un', 'op': e['op'], 'e': a[0], 't': e.get('t')}
+    return e
+
+
+def loop_bound(fn, count, path=None, whole=None, db=None):
+    """The single element loop of the encoder iterates exactly `count` times, visiting elements 0 .. count-1 in order.
+
+    Accepted loop forms (all normalised to the same facts): counted `for (i = 0; i < B; i++)`, `while (i < B) { ...; i++; }`
+    with `i` initialised to 0 before the loop, pointer/iterator loops `for (p = begin; p != end; ++p)`, and range-for over
+    the whole container.  B is read off the loop-entry condition of the symbolic path (so any spelling of the bound
+    works); the step is checked on the IR.  `whole` is the element count of the container for range-for / begin-end loops."""
+    bodies = [fn['body']]
+    if db is not None:
+        seen = set()
+        for c in ir.calls(fn['body']):
+            cal = db.callee(fn, c)
+            if cal is not None and 'body' in cal and inline_helpers(cal, c) and id(cal) not in seen:
+                seen.add(id(cal))
+                bodies.append(cal['body'])
+    loops = [y for b in bodies for y in ir.walk(b) if y.get('k') in ('for', 'while', 'rfor', 'do')]
     if len(loops) != 1:
         return False, 'expected exactly one element loop, found %d' % len(loops)
     lp = loops[0]
-    if lp['k'] != 'for' or not lp.get('init') or lp.get('cond') is None or lp.get('inc') is None:
-        return False, 'element loop is not a counted for-loop'
-    iv = lp['init']['vars'][0] if lp['init']['k'] == 'decl' and lp['init']['vars'] else None
-    if iv is None or ir.const_of(ir.strip_init(iv.get('init') or {})) != 0:
-        return False, 'element loop does not start at 0'
-    c = ir.strip_all_casts(lp['cond'])
-    if c.get('k') != 'bin' or c['op'] != '<' or ir.strip_all_casts(c['l']).get('id') != iv['id']:
-        return False, 'element loop condition is not `i < count`'
-    # evaluate the bound symbolically in a scratch path: it must be the decoded count
-    rhs = ir.strip_all_casts(c['r'])
     want = repr(count)
+    if lp['k'] == 'do':
+        return False, 'element loop is a do-while (runs at least once)'
+    if lp['k'] == 'rfor':
+        rng = ir.strip_all_casts(lp['range'])
+        while rng.get('k') == 'un' and rng.get('op') == '*':
+            rng = ir.strip_all_casts(rng['e'])
+        if not (rng.get('k') == 'ref' and rng.get('dk') == 'param'):
+            return False, 'range-for does not iterate the container parameter itself'
+        if whole is None or repr(whole) != want:
+            return False, 'range-for visits %s elements, expected %s' % (repr(whole), want)
+        return True, ''
+    cond = lp.get('cond')
+    if cond is None:
+        return False, 'element loop has no condition'
+    c = _norm_op(ir.strip_all_casts(cond))
+    if c.get('k') != 'bin' or c['op'] not in ('<', '!=', '>'):
+        return False, 'element loop condition is not `i < count`'
+    l, r = ir.strip_all_casts(c['l']), ir.strip_all_casts(c['r'])
+    if c['op'] == '>':
+        l, r = r, l
+    if not (l.get('k') == 'ref' and l.get('dk') == 'local'):
+        return False, 'element loop condition does not test a loop variable'
+    iv_id = l['id']
+    # initial value: for-init or a declaration that precedes the loop
+    init = None
+    if lp['k'] == 'for' and lp.get('init') and lp['init']['k'] == 'decl':
+        for v in lp['init']['vars']:
+            if v.get('id') == iv_id:
+                init = v.get('init')
+    if init is None:
+        for b in bodies:
+            for y in ir.walk(b):
+                if y.get('k') == 'decl':
+                    for v in y['vars']:
+                        if v.get('id') == iv_id:
+                            init = v.get('init')
+    if init is None:
+        return False, 'loop variable has no initial value'
+    init0 = ir.strip_init(init)
+    pointer_loop = False
+    if ir.const_of(init0) != 0 and ir.const_of(init) != 0:
+        # pointer / iterator loop from begin() to end()
+        txt_i, txt_e = ir.show(init0), ir.show(r)
+        if ('begin' in txt_i and 'end' in txt_e) or (txt_i.endswith('[0]') and whole is not None):
+            pointer_loop = True
+        else:
+            return False, 'element loop does not start at 0 / begin()'
+    # step: exactly one increment by one, not under a condition inside the loop
+    steps = []
+    where = []
+    if lp['k'] == 'for' and lp.get('inc') is not None:
+        where.append(lp['inc'])
+    for st in ir.stmt_list(lp['body']):
+        if st['k'] == 'expr':
+            where.append(st['e'])
+    other_writes = 0
+    for e in where:
+        e0 = _norm_op(ir.strip_all_casts(e))
+        if e0.get('k') == 'un' and e0['op'] in ('++',) and ir.strip_all_casts(e0['e']).get('id') == iv_id:
+            steps.append(1)
+        elif e0.get('k') == 'bin' and e0['op'] == '+=' and ir.strip_all_casts(e0['l']).get('id') == iv_id and ir.const_of(e0['r']) == 1:
+            steps.append(1)
+        elif e0.get('k') == 'bin' and e0['op'] == '=' and ir.strip_all_casts(e0['l']).get('id') == iv_id:
+            other_writes += 1
+    all_writes = 0
+    for y in ir.walk(lp):
+        y = _norm_op(y)
+        if y.get('k') == 'un' and y['op'] in ('++', '--') and ir.strip_all_casts(y['e']).get('id') == iv_id:
+            all_writes += 1
+        if y.get('k') == 'bin' and y['op'].endswith('=') and y['op'] not in ('==', '!=', '<=', '>=') and ir.strip_all_casts(y['l']).get('id') == iv_id:
+            all_writes += 1
+    if steps != [1] or all_writes != 1:
+        return False, 'element loop does not advance its variable by exactly one per iteration'
+    if pointer_loop:
+        if whole is None or repr(whole) != want:
+            return False, 'begin()..end() loop visits %s elements, expected %s' % (repr(whole), want)
+        return True, ''
+    # bound: from the loop-entry condition on the symbolic path when available, else from the IR
     got = None
-    if rhs.get('k') == 'ref' and rhs.get('dk') == 'local':
-        got = 'd:%s' % rhs['n']
-        if want.startswith(got + '#'):
-            got = want
-    elif 'cv' in rhs or 'cv' in c['r']:
-        got = str(ir.const_of(c['r']) if 'cv' in c['r'] else ir.const_of(rhs))
+    if path is not None:
+        for cc, sense in path.conds:
+            if isinstance(cc, Cmp) and sense and cc.op0 in ('<', '!=', '>'):
+                lo, hi = (cc.lhs, cc.rhs) if cc.op0 != '>' else (cc.rhs, cc.lhs)
+                if lo == Poly.const(0):
+                    got = repr(hi)
+    if got is None:
+        if r.get('k') == 'ref' and r.get('dk') == 'local':
+            got = 'd:%s' % r['n']
+            if want.startswith(got + '#'):
+                got = want
+        elif r.get('k') == 'ref' and r.get('dk') == 'param':
+            got = 'p:%s' % r['n']
+        elif 'cv' in r or 'cv' in c['r']:
+            got = str(ir.const_of(c['r']) if 'cv' in c['r'] else ir.const_of(r))
     if got != want:
-        return False, 'element loop bound is %s, expected %s' % (ir.show(c['r']), want)
-    inc = ir.strip_all_casts(lp['inc'])
-    if not (inc.get('k') == 'un' and inc['op'] == '++' and ir.strip_all_casts(inc['e']).get('id') == iv['id']):
-        return False, 'element loop does not advance by one'
+        return False, 'element loop bound is %s, expected %s' % (got if got is not None else ir.show(c['r']), want)
     return True, ''
 
 
@@ -750,7 +848,7 @@ def write_rules_for(chk, db, fn, k, R, want):
                 if order != ['elem(p:value).first', 'elem(p:value).second'] or not all(it[5].in_loop for it in encs):
                     why.append('entries are not written as key then mapped value per element: %s' % order)
             elif k.kind in ('ARR', 'LB'):
-                lb = loop_bound(fn, cnt if k.kind == 'ARR' else Poly.atom('l:size'))
+                lb = loop_bound(fn, cnt if k.kind == 'ARR' else cnt, full, whole=cnt, db=db)
                 encs = [it for it in body if it[0] == 'ENC']
                 if len(encs) != 1 or not encs[0][5].in_loop:
                     why.append('expected one element write per iteration')
@@ -863,7 +961,34 @@ def size_rules_for(chk, db, fn, k, R, winfo):
         elif k.kind in ('VEC', 'MAP'):
             acc = [e for e in full.events if e.kind == 'call' and e.name == 'accumulate']
             if len(acc) != 1:
-                why.append('element sizes are not accumulated exactly once')
+                # explicit loop: sum += Encoding<Elem>::Size(element) for every element, accumulated in std::size_t
+                sizes_in_loop = [it for it in view if it[0] == 'SIZE' and it[5].in_loop]
+                wel = [w[1] for w in (winfo.get('elems') or [])] if winfo else []
+                loops = [y for y in ir.walk(fn['body']) if y.get('k') in ('for', 'while', 'rfor')]
+                if acc or len(loops) != 1 or sorted(it[1] for it in sizes_in_loop) != sorted(wel):
+                    why.append('element sizes are not summed exactly once over the elements the writer emits')
+                else:
+                    lb = loop_bound(fn, cnt if cnt is not None else Poly.atom('p:value.size()'), full, whole=cnt, db=db)
+                    if not lb[0]:
+                        why.append('size loop: ' + lb[1])
+                    # the accumulator: the local that is the target of `+=` inside the loop
+                    acc_t = None
+                    for y in ir.walk(loops[0]):
+                        if y.get('k') == 'bin' and y['op'] in ('+=', '='):
+                            tgt = ir.strip_all_casts(y['l'])
+                            if y['op'] == '=':
+                                rhs = ir.strip_all_casts(y['r'])
+                                if not (rhs.get('k') == 'bin' and rhs['op'] == '+' and tgt.get('id') is not None and
+                                        tgt.get('id') in (ir.strip_all_casts(rhs['l']).get('id'), ir.strip_all_casts(rhs['r']).get('id'))):
+                                    continue
+                            if tgt.get('k') == 'ref' and tgt.get('dk') == 'local':
+                                acc_t = termx.tname(tgt.get('t'))
+                    if acc_t != 'unsigned long':
+                        why.append('element sizes are summed in %s, narrower than size_t' % acc_t)
+                    # one unrolled iteration: the returned size is prefix + Size(len) + exactly the in-loop element sizes
+                    terms = [(m, c) for m, c in residual.t.items()]
+                    if len(terms) != len(sizes_in_loop) or any(c != 1 or len(m) != 1 or not m[0].startswith('Size(') for m, c in terms):
+                        why.append('returned size is not prefix + Size(count) + the accumulated element sizes (residual %r)' % (residual,))
             else:
                 c = acc[0].callee
                 targs = (acc[0].expr.get('callee') or {})
